@@ -16,6 +16,7 @@ def run(c, replay):
     nprogs = 10 if c.tier == "quick" else 100
     mask = S.mask("COMMIT", "FINI_ENTRY", "GVT", "GVT_DRAIN", "FOSSIL")
     progs, runs = C.campaign(c, ctx, r, nprogs, mask, c.tier, extra_cfgs=[(2, 1, 20), (3, 2, 0)])
+    runs = runs + C.lp_campaign(c, ctx, r, 10 if c.tier == "quick" else 150, mask)
     ok, ncommit, nontriv, byvar = 0, 0, 0, {}
     for run_ in runs:
         res, pr = run_["res"], run_["prog"]
